@@ -15,6 +15,7 @@ def run(rep, tier, seed):
     q = tier == "quick"
     mr = 2500 if q else None
     configs = [
+        dict(name="hist_real_complex_alternating", module="MC_CTracer", maxinstr=2, maxhist=3, ops="OpsCore", points="PtsMix", seeds="SeedsB", max_replay=mr or 30000),
         dict(name="hist_two_independents", maxinstr=2, maxhist=3, ops="OpsTwo", points="PtsTwo", seeds="SeedsB", prefix="two", NI=2, max_replay=mr or 30000),
         dict(name="hist3", maxinstr=3, maxhist=3, ops="OpsHist", points="PtsP1small", seeds="SeedsA", max_replay=mr or 30000),
         dict(name="hist_drv", maxinstr=2, maxhist=3, ops="OpsDrvO", points="PtsOne", seeds="SeedsB", max_replay=mr or 30000),
